@@ -14,3 +14,5 @@ assert r['status'] == 'verified', r
 print('pyvc smoke test ok')
 "
 /venv/bin/python -c "import jsonpath_rfc9535, sys; sys.path.insert(0,'.'); from bounded import refsem; print('bounded smoke test ok')"
+# false statements must not be proved, a few true ones must (guards against an unsound or vacuous engine)
+PYTHONHASHSEED=0 /opt/veriftools/pyvenv/bin/python3 tools/engine_selftest.py > work/engine_selftest.log 2>&1 && echo "engine self-test ok" || { cat work/engine_selftest.log; exit 1; }
